@@ -72,6 +72,19 @@ CHECKS = {
         technique="TLA+ spec + TLC exhaustive enumeration, behaviour replay into real code, TLC trace validation on corpus files",
         design_ref="DESIGN.md section 5 C08",
     ),
+    "C12": dict(
+        level="model_checking",
+        text=("FileAsm.tla generates every fragmented file layout with mutually consistent delimiters (styp, top-level sidx, "
+              "mfra+ISM flag, start-on-moof, segment-level sidx, emsg placements, 1-2 tracks), states the prescribed partition "
+              "(Prop) and folds an Impl model of File.AddChild/startSegmentIfNeeded over the box sequence; TLC checks Impl = Prop "
+              "for all layouts and exports them; each is materialised with real sizes (two-pass sidx/tfra), decoded by both file "
+              "decoders, and the observed partition, the segment-mode re-encoding and the index written by UpdateSidx (read back by "
+              "an independent walker: reference starts, contiguity, end of media, summed durations, EPT, timescale) are compared."),
+        note=("Trusted: TLC, Go materialiser/walker. styp combined with the start-on-moof flag and emsg directly before a tfra-named "
+              "moof are outside the judged domain. reference_ID is not judged."),
+        technique="TLA+ spec + TLC exhaustive enumeration of layouts, behaviour replay into real code with independent read-back",
+        design_ref="DESIGN.md section 5 C12",
+    ),
 }
 
 PENDING_REASON = "check not built yet in this revision (planned in DESIGN.md section 5); not claimed until its machinery exists"
